@@ -104,6 +104,16 @@ def _strategy(draw):
                         done = True
             mt["resids"] = resids
         spec["shared_resids"] = True
+    # inter-residue bonds start from any real atom of a residue (a branch point then sees its neighbours
+    # through several of its atoms)
+    if draw(st.booleans()):
+        for mt in spec["moltypes"]:
+            ea = {}
+            for r1, r2 in mt["res_edges"]:
+                n1 = len(mt["residues"][r1]["atoms"]) - (1 if mt["residues"][r1]["vs"] else 0)
+                n2 = len(mt["residues"][r2]["atoms"]) - (1 if mt["residues"][r2]["vs"] else 0)
+                ea[f"{r1}-{r2}"] = (draw(st.integers(0, n1 - 1)), draw(st.integers(0, n2 - 1)))
+            mt["edge_atoms"] = ea
     build = []
     templates = {}
     volumes = {}
